@@ -234,7 +234,8 @@ dt_io_find_strpdt2(
 		const struct grpatm_payload_s *fp;
 		const char *np;
 
-		for (np = needle, fp = needles->flesh; *np < *p; np++, fp++);
+		for (np = needle, fp = needles->flesh;
+		     (unsigned char)*np < (unsigned char)*p; np++, fp++);
 
 		/* nc points to the first occurrence of *p in needle,
 		 * f is the associated grpatm payload */
@@ -747,7 +748,8 @@ build_needle(grep_atom_t atoms, size_t natoms, char *const *fmt, size_t nfmt)
 			size_t j;
 
 			/* stable insertion sort, find the slot first ... */
-			for (j = 0; j < idx && ndl[j] <= a.needle; j++);
+			for (j = 0; j < idx && (unsigned char)ndl[j] <=
+				     (unsigned char)a.needle; j++);
 			/* ... j now points to where we insert, so move
 			 * everything behind j */
 			if (j < idx) {
